@@ -32,4 +32,11 @@ func init() {
 			"(2) once a protocol is selected every exit passes exactly one Close of the conn, and each handler NewConn fails only after Close(non-nil error), so the answer is always formatted by the selected protocol; "+
 			"(3) a message holder passed to Receive is handed to user code only on paths where Receive returned nil; (4) no explicit panic outside the recover interceptor's re-panic.",
 		"well-formedness of the whole response for arbitrary bytes, absence of all run-time panics (nil dereference in general), termination, the exact error code of every malformed-input class.")
+
+	prop("C12", "Requests are dispatched by method, HTTP version and Content-Type as advertised",
+		[]string{"serve-guards", "accept-post-same-source", "content-type-codec-inverse", "stream-type-consts", "procedure-same-fn"},
+		"(1) the ServeHTTP guards and rejection statuses/headers of C07's serve-guards; (2) Accept-Post is computed, without any filtering branch, from the same handler list that dispatch looks the Content-Type up in, so advertised == accepted for every string; "+
+			"(3) per protocol and discriminator value the handler's content-type prefix, the prefix stripped to find the codec and the prefix the client sends are one constant, bare gRPC types only with a proto codec; "+
+			"(4) every constructor passes the StreamType constant implied by its signature, one value feeds Spec and protocol layer, IsClient only in client Specs; (5) handler and client derive Procedure with the same function and newSpec copies it.",
+		"URL shapes (the string algorithm of extractProtoPath over all URLs), behaviour of net/http's mux, what interceptors observe at run time.")
 }
